@@ -19,6 +19,7 @@ EXPLANATION = (
     'Also decided: SqlStorage.__setitem__ writes the given uri on every path; the nsc tool asks yplookup the question its command names. '
     'Also decided (round 7): SqlStorage.__setitem__ removes the old tags whatever the new tags are. '
     'Also decided (round 8): NameServer changes the storage only through operations the in-memory back-end implements itself (no dict-inherited mutator that bypasses its normalising __setitem__). '
+    "Also decided (round 11): Answer shapes follow return_metadata on every path and delegation; remove(name) does not depend on the name's truth value; MemoryStorage.everything answers with a snapshot; the `sql:` file path is taken verbatim; a safe registration is refused for every name that is present. "
     'Also decided (round 10): nsc hands the command-line words to the name server unchanged; the auto-cleaner removes by exact name only. '
     "Not decided: sqlite's own semantics, reopen equality, histories, injected "
     "statement failures."
